@@ -18,7 +18,9 @@
 (*   << >>                                reboot (open only)                                         *)
 (*                                                                                                   *)
 (* Deviation actions (as-built behaviour that the intended design does not have):                    *)
-(*   DEV_K1  _AdbPacketStore.put drops a CLSE for a pair without an entry (DropLiveClse)             *)
+(*   DEV_K1  _AdbPacketStore.put drops a CLSE for a pair without an entry (DropLiveClse) ...         *)
+(*   REGISTRY  ... unless the pair was marked live: the repair of finding K1 as built - read() marks *)
+(*           a stream live when its owner reads one of its packets off the wire, clear() unmarks it  *)
 (*   DEV_F5  _filesync_flush waits for OKAY only: a WRTE of the stream met meanwhile is discarded    *)
 (*           and never acknowledged (DiscardWrteWhileAwaitingOkay)                                   *)
 EXTENDS AdbMon, Json
@@ -27,7 +29,7 @@ CONSTANTS Threads,      \* set of thread names (strings)
           Prog,         \* [Threads -> Seq(step)]
           Replies,      \* [Threads -> Seq(Seq(tag))]: shell: Replies[t][1] = chunks written before the device closes;
                         \*   sync: Replies[t][j] = payload tags the service writes after consuming host WRITE j
-          DEV_K1, DEV_F5,
+          DEV_K1, DEV_F5, REGISTRY,
           RidBase       \* remote id of stream l is RidBase + l
 
 NoPkt == [cmd |-> "none", a0 |-> 0, a1 |-> 0, d |-> 0]
@@ -35,14 +37,14 @@ Pkt(c, a0, a1, d) == [cmd |-> c, a0 |-> a0, a1 |-> a1, d |-> d]
 Rid(l) == RidBase + l
 
 VARIABLES th,       \* [Threads -> [pc, ip, lid, rid, wait, buf, got, cur]]
-          nextId, tLock, store, d2h, h2d, dev, mon, act
-vars == <<th, nextId, tLock, store, d2h, h2d, dev, mon, act>>
+          nextId, tLock, store, live, d2h, h2d, dev, mon, act
+vars == <<th, nextId, tLock, store, live, d2h, h2d, dev, mon, act>>
 
 IsShell(t) == Prog[t] # <<>> /\ Prog[t][1] = "shell"
 ApiOf(t) == IF Prog[t] = <<>> THEN "reboot" ELSE IF IsShell(t) THEN "shell" ELSE "stat"
 
 Init == /\ th = [t \in Threads |-> [pc |-> "alloc", ip |-> 1, lid |-> 0, rid |-> 0, wait |-> "open", buf |-> 0, got |-> <<>>, cur |-> NoPkt]]
-        /\ nextId = 0 /\ tLock = "free" /\ store = <<>> /\ d2h = <<>> /\ h2d = <<>> /\ dev = <<>>
+        /\ nextId = 0 /\ tLock = "free" /\ store = <<>> /\ live = {} /\ d2h = <<>> /\ h2d = <<>> /\ dev = <<>>
         /\ mon = MonInit /\ act = [who |-> "init", what |-> "init", l |-> 0]
 
 A(who, what) == act' = [who |-> who, what |-> what, l |-> 0]
@@ -72,7 +74,7 @@ Pending(t) == {k \in DOMAIN store : store[k] # <<>> /\ k[2] = th[t].lid /\ (th[t
 Remove(f, k) == [x \in DOMAIN f \ {k} |-> f[x]]
 Put(s, p) == LET k == <<p.a0, p.a1>> IN
    IF k \in DOMAIN s THEN [s EXCEPT ![k] = Append(@, p)]
-   ELSE IF p.cmd = "CLSE" /\ DEV_K1 THEN s                      \* DropLiveClse
+   ELSE IF p.cmd = "CLSE" /\ DEV_K1 /\ ~(REGISTRY /\ k \in live) THEN s          \* DropLiveClse (kept for a live pair when the registry exists)
    ELSE [x \in DOMAIN s \cup {k} |-> IF x = k THEN <<p>> ELSE s[x]]
 
 (* the thread received an expected packet p while waiting in mode th[t].wait *)
@@ -98,6 +100,7 @@ Drain(q, exp) == IF q = <<>> THEN [p |-> NoPkt, rest |-> <<>>, gone |-> FALSE]
 TakeFrom(t, k, onEmpty, lockAfter) ==
    LET r == Drain(store[k], Expected(t)) IN
    /\ store' = IF r.gone THEN Remove(store, k) ELSE [store EXCEPT ![k] = r.rest]
+   /\ live' = IF r.gone THEN live \ {k} ELSE live
    /\ IF r.p.cmd = "none" THEN th' = [th EXCEPT ![t].pc = onEmpty] /\ tLock' = lockAfter
       ELSE th' = [th EXCEPT ![t] = Recv(t, r.p)] /\ tLock' = tLock
 
@@ -105,13 +108,13 @@ TakeFrom(t, k, onEmpty, lockAfter) ==
 Alloc(t) == /\ th[t].pc = "alloc" /\ nextId' = nextId + 1
             /\ th' = [th EXCEPT ![t].lid = nextId + 1, ![t].pc = "sendOpen"]
             /\ mon' = MonCall(mon, [t |-> t, api |-> ApiOf(t), decode |-> FALSE]) /\ A(t, "Alloc")
-            /\ UNCHANGED <<tLock, store, d2h, h2d, dev>>
+            /\ UNCHANGED <<tLock, store, live, d2h, h2d, dev>>
 
 HostSend(t, c, nextme) ==
    LET me == th[t] p == Pkt(c, me.lid, IF c = "OPEN" THEN 0 ELSE me.rid, 0) IN
    /\ tLock = "free" /\ h2d' = Append(h2d, p) /\ th' = [th EXCEPT ![t] = nextme]
    /\ mon' = MonStreamTx(mon, [t |-> t, cmd |-> c, a0 |-> W(p.a0), a1 |-> W(p.a1), len |-> 1, nul |-> TRUE])
-   /\ A(t, "Send") /\ UNCHANGED <<nextId, tLock, store, d2h, dev>>
+   /\ A(t, "Send") /\ UNCHANGED <<nextId, tLock, store, live, d2h, dev>>
 
 SendOpen(t) == th[t].pc = "sendOpen" /\ HostSend(t, "OPEN", IF Prog[t] = <<>> THEN [th[t] EXCEPT !.pc = "rd1", !.wait = "open"] ELSE [th[t] EXCEPT !.pc = "rd1", !.wait = "open"])
 SendWrte(t) == th[t].pc = "sendWrte" /\ HostSend(t, "WRTE", [th[t] EXCEPT !.pc = "rd1", !.wait = "flushwait"])
@@ -126,30 +129,31 @@ Ack(t) == /\ th[t].pc = "ack"
 
 Rd1(t) == /\ th[t].pc = "rd1" /\ A(t, "Rd1")
           /\ \/ \E k \in Pending(t) : TakeFrom(t, k, "rd23", tLock)
-             \/ /\ Pending(t) = {} /\ th' = [th EXCEPT ![t].pc = "rd23"] /\ UNCHANGED <<store, tLock>>
+             \/ /\ Pending(t) = {} /\ th' = [th EXCEPT ![t].pc = "rd23"] /\ UNCHANGED <<store, live, tLock>>
           /\ UNCHANGED <<nextId, d2h, h2d, dev, mon>>
 Rd23(t) == /\ th[t].pc = "rd23" /\ tLock = "free" /\ A(t, "Rd23")
            /\ \/ \E k \in Pending(t) : TakeFrom(t, k, "rd4", t)
-              \/ /\ Pending(t) = {} /\ th' = [th EXCEPT ![t].pc = "rd4"] /\ tLock' = t /\ UNCHANGED store
+              \/ /\ Pending(t) = {} /\ th' = [th EXCEPT ![t].pc = "rd4"] /\ tLock' = t /\ UNCHANGED <<store, live>>
            /\ UNCHANGED <<nextId, d2h, h2d, dev, mon>>
 Rd4(t) == /\ th[t].pc = "rd4" /\ d2h # <<>> /\ A(t, "Rd4")
           /\ LET p == Head(d2h) IN
              /\ d2h' = Tail(d2h) /\ tLock' = "free"
              /\ mon' = MonRd(mon, [t |-> t, cmd |-> p.cmd, a0 |-> W(p.a0), a1 |-> W(p.a1)])
-             /\ IF ~Match(t, p) THEN store' = Put(store, p) /\ th' = [th EXCEPT ![t].pc = "rd23"]
+             /\ IF ~Match(t, p) THEN store' = Put(store, p) /\ th' = [th EXCEPT ![t].pc = "rd23"] /\ UNCHANGED live
                 ELSE /\ store' = IF p.cmd = "CLSE" /\ <<p.a0, p.a1>> \in DOMAIN store THEN Remove(store, <<p.a0, p.a1>>) ELSE store
+                     /\ live' = IF ~REGISTRY THEN live ELSE IF p.cmd = "CLSE" THEN live \ {<<p.a0, p.a1>>} ELSE live \cup {<<p.a0, p.a1>>}
                      /\ th' = [th EXCEPT ![t] = IF p.cmd \in Expected(t) THEN Recv(t, p) ELSE [@ EXCEPT !.pc = "rd23"]]   \* unexpected: discarded
           /\ UNCHANGED <<nextId, h2d, dev>>
 \* the public call returns
 Return(t) == /\ th[t].pc = "ret" /\ th' = [th EXCEPT ![t].pc = "done"] /\ A(t, "Return")
              /\ mon' = MonRet(mon, [t |-> t, api |-> ApiOf(t), mode |-> "units",
                                     units |-> [i \in 1..Len(th[t].got) |-> <<W(th[t].lid), th[t].got[i]>>]])
-             /\ UNCHANGED <<nextId, tLock, store, d2h, h2d, dev>>
+             /\ UNCHANGED <<nextId, tLock, store, live, d2h, h2d, dev>>
 
 \* the public call raises (e.g. PushFailedError after a FAIL status): no CLSE is sent, the stream is abandoned
 Raise(t) == /\ th[t].pc = "raise" /\ th' = [th EXCEPT ![t].pc = "done"] /\ A(t, "Return")
             /\ mon' = MonExc(mon, [t |-> t, api |-> ApiOf(t), cls |-> "PushFailedError"])
-            /\ UNCHANGED <<nextId, tLock, store, d2h, h2d, dev>>
+            /\ UNCHANGED <<nextId, tLock, store, live, d2h, h2d, dev>>
 
 (* ---------------------------------------------------------------- the device (adbd) *)
 Owner(l) == CHOOSE t \in Threads : th[t].lid = l
@@ -166,7 +170,7 @@ DevRecv == /\ h2d # <<>> /\ AD("recv", 0)
                    [] p.cmd = "WRTE" -> dev' = [dev EXCEPT ![l].nwr = @ + 1, ![l].okq = @ + 1,
                                                           ![l].outq = @ \o (IF dev[l].nwr + 1 <= Len(Replies[t]) THEN Tag(Replies[t][dev[l].nwr + 1], dev[l].nwr + 1) ELSE <<>>)]
                    [] p.cmd = "CLSE" -> dev' = [dev EXCEPT ![l].st = IF @ = "closing" THEN "closed" ELSE "sendClse"]
-           /\ UNCHANGED <<th, nextId, tLock, store, d2h, mon>>
+           /\ UNCHANGED <<th, nextId, tLock, store, live, d2h, mon>>
 DevPut(l, c, d) == /\ d2h' = Append(d2h, Pkt(c, Rid(l), l, d))
                    /\ mon' = MonDv(mon, [cmd |-> c, a0 |-> W(Rid(l)), a1 |-> W(l), syms |-> <<>>])
 DevSend(l) == /\ l \in DOMAIN dev
@@ -178,7 +182,7 @@ DevSend(l) == /\ l \in DOMAIN dev
                  \/ /\ s.st = "open" /\ IsShell(t) /\ ~s.wait /\ s.outq = <<>>
                     /\ DevPut(l, "CLSE", 0) /\ dev' = [dev EXCEPT ![l].st = "closing"] /\ AD("data", l)
                  \/ /\ s.st = "sendClse" /\ DevPut(l, "CLSE", 0) /\ dev' = [dev EXCEPT ![l].st = "closed"] /\ AD("okay", l)
-              /\ UNCHANGED <<th, nextId, tLock, store, h2d>>
+              /\ UNCHANGED <<th, nextId, tLock, store, live, h2d>>
 
 HostNext == \E t \in Threads : Alloc(t) \/ SendOpen(t) \/ SendWrte(t) \/ SendClse(t) \/ SendClseFinal(t) \/ Ack(t) \/ Rd1(t) \/ Rd23(t) \/ Rd4(t) \/ Return(t) \/ Raise(t)
 DevNext == DevRecv \/ \E l \in 1..Cardinality(Threads) : DevSend(l)
@@ -206,13 +210,14 @@ EventuallyDone == <>AllDone
 (* ---------------------------------------------------------------- edge stream for the transition tour *)
 P(p) == [cmd |-> p.cmd, a0 |-> p.a0, a1 |-> p.a1, d |-> p.d]
 PS(w) == [i \in 1..Len(w) |-> P(w[i])]
-St(th_, nid, tl, st, w1, w2, dv) ==
+St(th_, nid, tl, st, lv, w1, w2, dv) ==
    [th |-> [t \in Threads |-> [pc |-> th_[t].pc, ip |-> th_[t].ip, lid |-> th_[t].lid, rid |-> th_[t].rid, got |-> th_[t].got, wait |-> th_[t].wait, buf |-> th_[t].buf, cur |-> P(th_[t].cur)]],
     nid |-> nid, tlock |-> tl,
     store |-> {[a0 |-> k[1], a1 |-> k[2], q |-> PS(st[k])] : k \in DOMAIN st},
+    live |-> {[a0 |-> k[1], a1 |-> k[2]] : k \in lv},
     d2h |-> PS(w1), h2d |-> PS(w2),
     dev |-> {[l |-> l, st |-> dv[l].st, okq |-> dv[l].okq, wait |-> dv[l].wait, outq |-> Len(dv[l].outq), nwr |-> dv[l].nwr, sentn |-> dv[l].sentn] : l \in DOMAIN dv}]
-View == <<th, nextId, tLock, store, d2h, h2d, dev, mon>>
-EmitEdge == act'.who = "init" \/ PrintT(<<"EDGE", ToJson([from |-> St(th, nextId, tLock, store, d2h, h2d, dev), act |-> act',
-                                                        to |-> St(th', nextId', tLock', store', d2h', h2d', dev')])>>)
+View == <<th, nextId, tLock, store, live, d2h, h2d, dev, mon>>
+EmitEdge == act'.who = "init" \/ PrintT(<<"EDGE", ToJson([from |-> St(th, nextId, tLock, store, live, d2h, h2d, dev), act |-> act',
+                                                        to |-> St(th', nextId', tLock', store', live', d2h', h2d', dev')])>>)
 =============================================================================
